@@ -73,7 +73,9 @@ CATALOGS = {
     'dicts': dict(integrations=[{'name': 'int1', 'type': 'data'}, {'name': 'int2', 'type': 'data'},
                                 {'name': 'proj', 'type': 'project'}], default_namespace='mindsdb',
                   predictor_metadata=[{'name': 'pred', 'integration_name': 'mindsdb'},
-                                      {'name': 'pred2', 'integration_name': 'proj', 'to_predict': 'y'}]),
+                                      {'name': 'pred2', 'integration_name': 'proj', 'to_predict': 'y'},
+                                      {'name': 'pred3', 'integration_name': 'proj', 'to_predict': 'target_xz'},
+                                      {'name': 'pred4', 'integration_name': 'proj', 'to_predict': ['target_xz', 'other']}]),
     'legacy-dict': dict(integrations=['int1', 'int2'], predictor_namespace='mindsdb',
                         predictor_metadata={'pred': {}, 'pred2': {'integration_name': 'proj', 'to_predict': ['y']}}),
     'no-default': dict(integrations=['int1', 'int2'],
